@@ -96,6 +96,15 @@ pub fn run(ctx: &Ctx) -> i32 {
             sp.height = *rng.pick(&[1u16, 65535, 32767, 256]);
             // tilemap logical sizes are derived from the canvas; keep them representable
             sp.cels.retain(|_, c| !matches!(c.content, CelContentM::Tilemap { .. }));
+            // links whose target was a tilemap cel go with it
+            let keys: Vec<(u16, u16)> = sp.cels.keys().cloned().collect();
+            for k in keys {
+                if let CelContentM::Link(t) = sp.cels[&k].content {
+                    if !sp.cels.contains_key(&(t, k.1)) {
+                        sp.cels.remove(&k);
+                    }
+                }
+            }
         }
         let feature = gen::features(&sp);
         let mut res = CaseResult::ok(feature, 0, "ok");
